@@ -2,7 +2,7 @@
 // replay: ./check C08 --replay /verif/replays/C08/c08_prime_truncate_q08_fp61_truncate_u128.rs
 /// Test generated for harness `verif_kani::c08_prime::truncate::q08_fp61_truncate_u128` 
 ///
-/// Check for `cover`: "cover condition: true"
+/// Check for `assertion`: ""truncate_from(u128) canonical""
 ///
 /// # Warning
 ///
@@ -16,10 +16,10 @@
 /// logic.
 
 #[test]
-fn kani_concrete_playback_q08_fp61_truncate_u128_9540566686251495000() {
+fn kani_concrete_playback_q08_fp61_truncate_u128_4555726763929275688() {
     let concrete_vals: Vec<Vec<u8>> = vec![
-        // 0
-        vec![0, 0, 0, 0, 0, 0, 0, 0, 0, 0, 0, 0, 0, 0, 0, 0],
+        // 340282366920938463463374607431768211455
+        vec![255, 255, 255, 255, 255, 255, 255, 255, 255, 255, 255, 255, 255, 255, 255, 255],
     ];
     kani::concrete_playback_run(concrete_vals, crate::verif_kani::c08_prime::truncate::q08_fp61_truncate_u128);
 }
